@@ -18,11 +18,11 @@ TC=0; for t in _build/test_*; do [ -x $t ] && n=$($t 2>/dev/null | sed -n 's/.*t
 rundemo() {
   if [ -f $SD/demo.cpp ]; then
     if grep -q "boost/mpi\|mpi.h" $SD/demo.cpp; then
-      mpicxx -std=c++14 -O1 -w -I$WT/include -I$WT/_build/include $SD/demo.cpp -o $WT/_demo -ltbb -lboost_timer -lboost_mpi -lboost_serialization >>$LOG 2>&1 || return 99
+      mpicxx -std=c++14 -O1 -w -DPARMCB_VERIF -I$WT/include -I$WT/_build/include $SD/demo.cpp -o $WT/_demo -ltbb -lboost_timer -lboost_mpi -lboost_serialization >>$LOG 2>&1 || return 99
       NP=$(sed -n 's/.*-n \([0-9]*\).*/\1/p' $SD/demo.cpp | head -1); NP=${NP:-2}
       timeout 600 mpiexec --allow-run-as-root --oversubscribe -n $NP $WT/_demo >>$LOG 2>&1
     else
-      g++ -std=c++14 -O1 -w -I$WT/include -I$WT/_build/include $SD/demo.cpp -o $WT/_demo -ltbb -lboost_timer -lboost_program_options -lboost_thread >>$LOG 2>&1 || return 99
+      g++ -std=c++14 -O1 -w -DPARMCB_VERIF -I$WT/include -I$WT/_build/include $SD/demo.cpp -o $WT/_demo -ltbb -lboost_timer -lboost_program_options -lboost_thread >>$LOG 2>&1 || return 99
       (cd $WT && timeout 900 ./_demo) >>$LOG 2>&1
     fi
   else
